@@ -31,8 +31,8 @@ PARTIAL = ('proved over the reals: all six assemblers compute J*(operand compone
            'acos atan asinh acosh (refuted on Re z < 0: known finding) atanh magnitude mag_squared phase; + and - are proved at formula level, '
            'not through the denotation.  Modelled and tied bit-exactly but without analytic theorems: complex dof (willink_hall with the persistent '
            '_EnsembleComponents accumulators; proved: its result does not depend on the accumulators on entry, C03_dof_entry_independent), '
-           'UncertainComplex.set_correlation, the promotion of an uncertain real by a plain complex number (lib._add ... _rpow; refuted witness '
-           'C01_intermediate_times_complex_refuted)')
+           'UncertainComplex.set_correlation, the promotion of an uncertain real by a plain complex number (lib._add ... _rpow): proved that its components are always new objects '
+           '(C01_promotion_components_fresh; fixed findings C01-intermediate-times-complex, C06-result-real-plus-complex-literal)')
 ASSUMPTIONS = ['rounding error of float arithmetic is not bounded by proof (theorems are over the reals)',
                'cmath functions and the general complex power are oracles over floats; over the reals they are the principal-branch '
                'functions of CplxR.v, whose values ON a branch cut are not those of the signed-zero implementation']
@@ -161,7 +161,6 @@ def check_tree(t, vals, kinds, us):
     try:
         y = ev_gtc(t, ins, core)
     except Exception as ex:
-        if 'i' in kinds and isinstance(ex, AssertionError): return None      # known finding C01-intermediate-times-complex
         return {'tree': t, 'x': [str(v) for v in vals], 'kinds': kinds, 'u': us, 'raises': type(ex).__name__}
     if not isinstance(y, (lib.UncertainComplex, lib.UncertainReal)): return None
     for i, x in enumerate(ins):
@@ -181,6 +180,35 @@ def check_tree(t, vals, kinds, us):
         if any(abs(a - b) > tol for a, b in zip(S, J)) or any(abs(a - b) > 1e-12 * max(1.0, abs(a)) for a, b in zip(Cc, want_c)):
             return {'tree': t, 'x': [str(v) for v in vals], 'kinds': kinds, 'u': us, 'input': i,
                     'sensitivity': list(S), 'numerical_jacobian': list(J), 'u_component': list(Cc)}
+    return None
+
+def check_declare(t, vals, kinds, us):
+    """result() must be transparent: declaring the value of tree t must succeed whenever computing it does, and keep the
+    value and the components w.r.t. the inputs (fixed finding C06-result-real-plus-complex-literal)"""
+    from GTC import core, reporting, lib
+    new_context(7)
+    def mk(v, k, u):
+        if k == 'c': return core.ucomplex(v, u)
+        if k == 'i': return core.result(core.ureal(v - 0.25, u[0]) + core.ureal(0.25, u[1]))
+        if k == 'k': return core.constant(v)
+        return core.ureal(v, u[0])
+    ins = [mk(v, k, u) for v, k, u in zip(vals, kinds, us)]
+    try:
+        y = ev_gtc(t, ins, core)
+    except AssertionError:
+        return {'declare': True, 'tree': t, 'x': [str(v) for v in vals], 'kinds': kinds, 'u': us, 'raises': 'AssertionError'}
+    except Exception:
+        return None
+    if not isinstance(y, (lib.UncertainComplex, lib.UncertainReal)): return None
+    try:
+        r = core.result(y)
+    except Exception as ex:
+        return {'declare': True, 'tree': t, 'x': [str(v) for v in vals], 'kinds': kinds, 'u': us, 'result_raises': type(ex).__name__}
+    for x in ins:
+        a = reporting.u_component(y, x); b = reporting.u_component(r, x)
+        a = tuple(a) if isinstance(a, tuple) else (a,); b = tuple(b) if isinstance(b, tuple) else (b,)
+        if a != b or complex(core.value(r)) != complex(core.value(y)):
+            return {'declare': True, 'tree': t, 'x': [str(v) for v in vals], 'kinds': kinds, 'u': us, 'changed_by_result': [list(a), list(b)]}
     return None
 
 def search(rng, tier, broken):
@@ -211,6 +239,14 @@ def search(rng, tier, broken):
                 tried += 1
                 r = check_tree(t, [xa, xb], [ka, kb], [(0.03, 0.04), (0.05, 0.02)])
                 if r is not None and 'raises' not in r: return {'tried': tried, 'failing': r}
+    # an uncertain real of every role (op) a complex literal, both sides, incl. the identity shortcuts; then result()
+    for kd in ('r', 'i', 'k'):
+        for f in ('add', 'sub', 'mul', 'div'):
+            for c in (2j, 1j, -1j, 1 + 2j, 2 + 1j, 0j, 1 + 0j, 1.5 + 2j):
+                for t in (('bin', f, ('var', 0), ('num', c)), ('bin', f, ('num', c), ('var', 0))):
+                    tried += 1
+                    r = check_declare(t, [2.3], [kd], [(0.27, 0.1)])
+                    if r is not None: return {'tried': tried, 'failing': r}
     # REAL results w.r.t. a COMPLEX input of every kind (independent / dependent-and-correlated), and complex ones
     for kd in ('d', 'c'):
         for f in ('magnitude', 'mag_squared', 'phase', 'exp', 'conjugate'):
@@ -271,7 +307,8 @@ def replay(payload):
     f = payload.get('failing_input')
     print(json.dumps(payload.get('broken'), indent=1, default=str)[:3000])
     if f:
-        r = check_tree(tuple_tree(f['tree']), _vals(f), f['kinds'], [tuple(u) for u in f['u']])
+        fn = check_declare if f.get('declare') else check_tree
+        r = fn(tuple_tree(f['tree']), _vals(f), f['kinds'], [tuple(u) for u in f['u']])
         print('replayed failing input on the implementation:', 'STILL FAILS %r' % (r,) if r else 'passes now')
         return 1 if r else 0
     return 0
@@ -301,19 +338,4 @@ def known_pow_zero_base():
         return False, repr(ex)
     return False, 'no exception'
 
-def kf_C01_intermediate_times_complex():
-    """C01: result(x) (op) complex literal raises AssertionError: the promotion code of lib._add/_mul/... reuses the
-    intermediate operand itself as one component (x + 0.0 -> x, x * 1.0 -> x) and UncertainComplex.__init__ asserts
-    that both components have the same is_intermediate"""
-    from GTC import core
-    new_context(9)
-    x = core.result(core.ureal(2.0, 0.5) * 1.5)
-    hits = []
-    for name, th in (('result(x)+1j', lambda: x + 1j), ('result(x)*1j', lambda: x * 1j), ('result(x)*(2+1j)', lambda: x * (2 + 1j))):
-        try:
-            th()
-        except AssertionError:
-            hits.append(name)
-        except Exception as ex:
-            return False, '%s raised %r' % (name, ex)
-    return len(hits) == 3, hits
+from ckf import kf_C01_intermediate_times_complex, kf_C06_result_real_plus_complex_literal
